@@ -132,9 +132,9 @@ func vReach(label string) {
 
 // vRunPending: the executor runs all spawned goroutines to completion here;
 // natively, give background goroutines time to finish.
-func vRunPending() { time.Sleep(150 * time.Millisecond) }
+func vRunPending()               { time.Sleep(150 * time.Millisecond) }
 func vSetOpt(name string, v int) {}
-func vNote(s string)           {}
+func vNote(s string)             {}
 
 // vPanics runs f and reports whether a panic escaped it.
 func vPanics(f func()) (p bool) {
@@ -159,14 +159,13 @@ func vASCII(s string) {
 
 func vFmt(format string, a ...interface{}) string { return fmt.Sprintf(format, a...) }
 
-
 // Lock-discipline monitor (executor only; no-ops natively): after vWatch(root,
 // mu) every map reachable from root may be read only with mu held and written
 // only with mu write-held, and every reachable object may be stored to only
 // with mu write-held, while vWatchOn(true). Violations are logged as event
 // "unguarded". vLockAcquires counts Lock/RLock calls on mu.
 func vWatch(root interface{}, mu interface{}) {}
-func vWatchOn(on bool)                       {}
+func vWatchOn(on bool)                        {}
 
 // vPermuteIn: the executor explores every iteration order of map ranges inside the named function.
 func vPermuteIn(fn string) {}
